@@ -76,6 +76,17 @@ def construct_expression_tree(
 
         function_name = expression_ast[0]
         extracted_function = domain_functions[function_name]
+        function_arguments = expression_ast[1:]
+        if len(function_arguments) != len(extracted_function.signature) or len(
+            set(function_arguments)
+        ) != len(function_arguments):
+            # Zipping would silently truncate the application, a repeated argument would be dropped and
+            # '(f)' would silently stand for the declaration '(f ?x)' itself.
+            raise ValueError(
+                f"The function application {expression_ast} does not match the declaration "
+                f"{str(extracted_function)} or repeats an argument!"
+            )
+
         if len(expression_ast) == 1:
             return AnyNode(id=str(extracted_function), value=extracted_function)
 
